@@ -121,6 +121,19 @@ end
 theorem nothing_known_nothing_folded (prog : List Node) (h : noConstBindList prog = true) : transpile prog = prog :=
   (nkList prog {} NoKnow.empty h).2
 
+/-- a parameter hides a module-level constant of the same name: inside the function body no read of a parameter (that the body
+    does not itself re-bind) is folded, whatever the environment at the `def` knows about that name -/
+theorem param_reads_stay_runtime (p : PState) (params : List String) (body : List Node) (x : String)
+    (hx : x ∈ params) (hw : x ∉ writesList body) :
+    countObsList x (foldFunction p params body) = countObsList x body :=
+  countList_unknown x body _ (enterFunction_lookup params p x (Or.inl hx)) hw
+
+/-- without the reset the global's value would be baked in: `msg = "hello"`; `def count(msg): return len(msg)` -/
+theorem param_shadow_needs_reset :
+    let p : PState := (foldList {} [.bind "msg" (.str "hello")]).1
+    countObsList "msg" (foldList p [.obs "msg"]).2 = 0 ∧ countObsList "msg" (foldFunction p ["msg"] [.obs "msg"]) = 1 := by
+  simp [foldFunction, enterFunction, foldList, foldNode, PState.bindStr, PState.known, countObsList, countObsNode]
+
 /-- `xs = [1, 2]`; `if …: xs.append(3)`; `len(xs)` — the branch is not taken, the folded length counts the append -/
 theorem append_in_untaken_branch_counterexample :
     let p : List Node := [.bind "xs" (.list [1, 2]), .branches [[.append "xs" 3]], .obs "xs"]
